@@ -396,7 +396,8 @@ def gen_schema(st, want_mutation=False, small=False,
                     spec.arg_overrides[(oname, f, a.name)] = alt[a.name]
 
     # -- behaviours, type resolution style -----------------------------------
-    spec.objrepr = ("obj", "dict")[st.below(2, "objrepr")]
+    spec.objrepr = ("obj", "dict", "obj", "dict", "map")[
+        st.below(5, "objrepr")]
     # root fields served by the library's default resolver from attributes /
     # methods of the root value handed to the entry point
     spec.root_default = bool(allow_root_default and spec.objrepr == "obj"
@@ -408,6 +409,9 @@ def gen_schema(st, want_mutation=False, small=False,
                 b = "sync"
             if b == "default" and spec.objrepr == "dict":
                 b = "sync"
+            if b == "default" and spec.objrepr == "map" and \
+                    spec.fields[f].args:
+                b = "sync"  # key lookup knows nothing of arguments
             if b == "default" and tname in ("Query", "Mutation",
                                             "Subscription") and not (
                     spec.root_default and tname != "Subscription"):
